@@ -6,6 +6,10 @@ V = os.path.dirname(os.path.dirname(os.path.abspath(__file__)))
 KEEP = "--keep" in sys.argv        # leave the scratch directory in place (its path is printed) for a look at the traces
 if KEEP:
     sys.argv.remove("--keep")
+TIER = "quick"
+if "--thorough" in sys.argv:
+    sys.argv.remove("--thorough")
+    TIER = "thorough"
 seed = os.path.abspath(sys.argv[1])
 pids = sys.argv[2:] or ["C%02d" % i for i in range(1, 20) if i != 14]   # C14 reads /repo itself: tools/try_mutation.sh
 tmp = tempfile.mkdtemp(prefix="orxseed.")
@@ -24,7 +28,7 @@ try:
     mp = os.path.join(seed, "matrix.json")
     res = json.load(open(mp)) if os.path.exists(mp) else {}
     for p in pids:
-        r = subprocess.run([os.path.join(V, "check"), p, "--tier", "quick"], cwd=V, env=env, stdout=subprocess.PIPE, stderr=subprocess.STDOUT, text=True)
+        r = subprocess.run([os.path.join(V, "check"), p, "--tier", TIER], cwd=V, env=env, stdout=subprocess.PIPE, stderr=subprocess.STDOUT, text=True)
         v = [l for l in r.stdout.split("\n") if l.startswith("VIOLATION")]
         kind = "none"
         if v:
@@ -38,7 +42,8 @@ try:
                 pass
         res[p] = {"exit": r.returncode, "detected": kind, "why": why}
         print(p, r.returncode, kind, why[:110], flush=True)
-    json.dump(res, open(mp, "w"), indent=1)
+    if TIER == "quick":
+        json.dump(res, open(mp, "w"), indent=1)
 finally:
     if KEEP:
         print("kept:", tmp, "(remove with: git -C /repo worktree remove --force %s; rm -rf %s)" % (wt, tmp))
